@@ -173,6 +173,27 @@ C07_Idempotent ==
 \* "running the indexer twice changes nothing the second time" - on the live index, rows included
 C07_SecondPassNoop == Replay(index, tape).idx = index /\ ~Replay(index, tape).err
 
+\* C06: crash prefix-recoverability.  A cut is a block offset; the indexer applies every
+\* record that is wholly before the cut and, if the cut falls behind a complete header
+\* (in the record's data or padding), that one header too, before it hits the end of the tape.
+CutPoints == 0..tend
+WholeBefore(cut) == SelectSeq(tape, LAMBDA r : RecEnd(r) <= cut)
+TornWithHeader(cut) == SelectSeq(tape, LAMBDA r : r.off + r.hb <= cut /\ cut < RecEnd(r))
+C06_Prefix ==
+  \A cut \in CutPoints :
+     LET base == Replay(EmptyIndex, WholeBefore(cut))
+         got  == Replay(EmptyIndex, WholeBefore(cut) \o TornWithHeader(cut))
+         torn == TornWithHeader(cut)
+         vb   == Visible(base.idx)
+         vg   == Visible(got.idx)
+     IN /\ ~base.err /\ ~got.err
+        /\ Len(torn) <= 1
+        /\ \A p \in (DOMAIN vb) \cup (DOMAIN vg) :
+              (torn = <<>> \/ p # torn[1].name) =>
+                 (p \in DOMAIN vb /\ p \in DOMAIN vg /\ vb[p] = vg[p])
+        \* the torn record can only be one that carries data
+        /\ torn # <<>> => (torn[1].db > 0 /\ (torn[1].action = "CREATE" \/ torn[1].rc))
+
 \* C12: RemoveAll/Rename touch exactly the named subtree (stated on the index, not on ref).
 Affected(c) == IF c.op = "RemoveAll" THEN Subtree(ref, c.p)
                ELSE IF c.op = "Rename" /\ c.p # c.q THEN Subtree(ref, c.p) \cup Subtree(ref, c.q) \cup {Rebase(s, c.p, c.q) : s \in Subtree(ref, c.p)}
